@@ -35,6 +35,11 @@ def run(tier):
     g2 = vf.tlc_gen('gen/MC_C16', NA[tier], timeout=2400)
     rep.add_tlc(g2[1])
     recs += vf.run_shards(binary, g2[0])
+    if tier == 'thorough':      # the quick universe (five scalars incl. the fraction 1.5, depth 1 under depth 2) is part of the thorough tier
+        for c in (CFG['quick'], NA['quick']):
+            gq = vf.tlc_gen('gen/MC_C16', c, timeout=2400)
+            rep.add_tlc(gq[1])
+            recs += vf.run_shards(binary, gq[0])
     traces = [r for r in recs if r.get('k') == 'trace']
     others = [r for r in recs if r.get('k') != 'trace']
     # G part (reuse the generic triage on the non-trace records)
